@@ -29,7 +29,7 @@ ASSUMPTIONS = ['the reference result of a page is the one obtained from a freshl
                'transcriptions compared exactly, confidences within 1e-12', 'stub OCR network and toy LM as in C07 / C03']
 N = {'quick': 72, 'thorough': 4000}
 CLASSES = ['beam_nolm', 'lm_nocarry', 'lm_carry', 'lm_carry', 'greedy', 'lm_carry_threshold', 'page_parser', 'lm_carry', 'layout_history', 'lm_carry', 'layout_history', 'beam_nolm', 'stage_history']
-REQUIRED = ['direct_decode_line_calls_between_pages', 'pages_after_an_interrupted_page', 'layout_histories_with_two_scan_sizes_sharing_a_padded_size', 'stage_history_pages', 'pages_in_a_folder_vs_alone', 'pages_under_a_limit_that_others_exceed', 'given_line_pages', 'layout_history_pages', 'layout_pages_without_upright_lines', 'histories', 'page_results_compared', 'pages_after_other_page', 'repeated_pages', 'carry_lines_decoded', 'lines_reprimed_from_last_line', 'confident_lines_skipped',
+REQUIRED = ['pages_decoded_across_the_hundredth_line_of_a_decoder', 'histories_of_more_than_100_lines', 'histories_with_an_injected_out_of_memory_fault', 'kept_lines_between_decoded_lines', 'direct_decode_line_calls_between_pages', 'pages_after_an_interrupted_page', 'layout_histories_with_two_scan_sizes_sharing_a_padded_size', 'stage_history_pages', 'pages_in_a_folder_vs_alone', 'pages_under_a_limit_that_others_exceed', 'given_line_pages', 'layout_history_pages', 'layout_pages_without_upright_lines', 'histories', 'page_results_compared', 'pages_after_other_page', 'repeated_pages', 'carry_lines_decoded', 'lines_reprimed_from_last_line', 'confident_lines_skipped',
             'page_parser_pages', 'process_pairs_compared', 'resume_runs_compared']
 KNOWN_DS = 'adaptive down-sampling factor carried over from the previous page'
 LETTERS = list('abc')
@@ -49,8 +49,14 @@ def setup(ctx):
 
     def mk(f):
         def w(self, line):
-            ctx.events.append({'line': line.id, 'last_h_is_none': self.last_h is None, 'last_line': self.last_line})
-            return f(self, line)
+            ev = {'line': line.id, 'last_h_is_none': self.last_h is None, 'last_line': self.last_line, 'state_id': id(self.last_h)}
+            ctx.events.append(ev)
+            before = self.lines_decoded
+            try:
+                return f(self, line)
+            finally:
+                ev['kept_without_decoding'] = self.lines_decoded == before
+                ev['state_id_after'] = id(self.last_h) if self.last_h is not None else None
         return w
     hooks.wrap(pp.PageDecoder, 'decode_line', mk)
     ctx.pf_root = None
@@ -104,6 +110,11 @@ def make_page(L, seed, p):
         if p % 2 == 0 and l == n - 1:
             scale, t = 30.0, (t or 'ab')
         if p % 2 == 1 and l == 0:
+            scale, T = 1.0, max(T, 4)
+        # (round 8) the last page: a decoded line, then a confident line that carries no text, then another decoded line
+        if p == 3 and n >= 3 and l == 1:
+            scale, t = 30.0, ['', None][int(rng.integers(0, 2))]
+        if p == 3 and n >= 3 and l == 2:
             scale, T = 1.0, max(T, 4)
         lg = rng.normal(size=(T, 4)) * scale
         lg[lg == 0] = 0.1
@@ -242,7 +253,11 @@ def check(case, mon, ctx):
         mk().process_page(pl)
         ref.append(result_of(pl))
     nontriv = False
-    for seq in case['sequences']:
+    seqs_all = list(case['sequences'])
+    if case['cls'].startswith('lm_carry'):
+        seqs_all.append([0, 1, 2, 3] * 14)          # (round 8) a long run: far more than a hundred lines through one decoder
+        mon.count('histories_of_more_than_100_lines')
+    for seq in seqs_all:
         inst = mk()
         mon.count('histories')
         seen = set()
@@ -279,6 +294,16 @@ def check(case, mon, ctx):
                 mon.count('repeated_pages')
             seen.add(p)
             ev = list(ctx.events)
+            # invariant at the hook: the LM state carried into a line is the state after the previous line's text - after a line that was kept without being decoded,
+            # the state that an EARLIER line left must not be carried on
+            if case['cls'].startswith('lm_carry'):
+                for e0, e1 in zip(ev, ev[1:]):
+                    if e0.get('kept_without_decoding') and not e0['last_h_is_none']:
+                        mon.count('kept_lines_between_decoded_lines')
+                        if not e1['last_h_is_none'] and e1['state_id'] == e0['state_id']:
+                            mon.violation('page-result-independent-of-history', {'configuration': case['cls'], 'threshold': case['threshold'], 'page': p, 'line': e1['line'],
+                                          'note': 'the line before was kept without decoding (text %r); the LM state left by the line before THAT one was carried into this line' % (e0.get('last_line_after'),)},
+                                          mechanism='stale-lm-state-carried-over-a-kept-line')
             for e in ev:
                 if case['cls'].startswith('lm_carry'):
                     mon.count('carry_lines_decoded')
@@ -291,6 +316,33 @@ def check(case, mon, ctx):
                 mon.violation('page-result-independent-of-history', {'configuration': case['cls'], 'threshold': case['threshold'], 'history': seq[:pos + 1], 'page': p,
                               'first_differing_line': first, 'got': got[first] if first is not None else None, 'alone': ref[p][first] if first is not None else None,
                               'state_carried_into_that_line': carried})
+                break
+    if case['cls'].startswith('lm_carry'):
+        # (round 8) a decoder that has already decoded 97-99 lines (single lines decoded directly, as above) receives the longest page: its hundredth line falls inside the page
+        q = max(range(4), key=lambda k: len(ref[k]))
+        some = [l for pg in pages for l in pg.lines_iterator()]
+        for target in (97, 98, 99, 197, 198):
+            if len(ref[q]) < 3:
+                break
+            inst = mk()
+            guard = 0
+            while inst.lines_decoded < target and guard < 1500:
+                try:
+                    inst.decode_line(copy.deepcopy(some[guard % len(some)]))
+                except Exception:
+                    pass
+                guard += 1
+            if inst.lines_decoded != target:
+                continue
+            pl = copy.deepcopy(pages[q])
+            del ctx.events[:]
+            inst.process_page(pl)
+            mon.count('pages_decoded_across_the_hundredth_line_of_a_decoder')
+            got = result_of(pl)
+            if not same(got, ref[q]):
+                first = next((k for k, (x, y) in enumerate(zip(got, ref[q])) if x != y), None)
+                mon.violation('page-result-independent-of-history', {'configuration': case['cls'], 'threshold': case['threshold'], 'history': '%d lines decoded one by one before the page' % target, 'page': q,
+                              'first_differing_line': first, 'got': got[first] if first is not None else None, 'alone': ref[q][first] if first is not None else None})
                 break
     if nontriv:
         mon.mark_nontrivial()
@@ -686,4 +738,34 @@ def check_layout_history(case, mon, ctx):
                               'first_difference': None if first is None else {'after_history': got[first], 'alone': ref[p][first]}})
                 break
         close(parser)
+    # (round 8) fault injection: the orientation network of the direction filter runs out of memory once, on an earlier page; whatever becomes of that page,
+    # the later pages are analysed as by a fresh parser (same results, and the filter still works at its configured resolution)
+    probe = fresh()
+    filters = [lp for lp in probe.layout_parsers if isinstance(lp, ctx.pp.LineFilter)]
+    if filters:
+        eng_f = filters[0].engine
+        configured = eng_f.downsample
+        real_get_maps = eng_f.tiltnet.get_maps
+        state = {'armed': True}
+
+        def failing(image, downsample):
+            if state['armed']:
+                state['armed'] = False
+                raise RuntimeError('CUDA out of memory. Tried to allocate 2.00 GiB (injected)')
+            return real_get_maps(image, downsample)
+        eng_f.tiltnet.get_maps = failing
+        run(probe, 2 % len(pages))
+        eng_f.tiltnet.get_maps = real_get_maps
+        mon.count('histories_with_an_injected_out_of_memory_fault')
+        if eng_f.downsample != configured:
+            mon.violation('page-result-independent-of-history', {'configuration': 'PageParser with LINE_FILTER', 'note': 'after a page on which the orientation network ran out of memory once, the filter works '
+                          'at another resolution for every later page', 'configured_downsample': configured, 'downsample_now': eng_f.downsample}, mechanism='stage-configuration-changed-by-an-earlier-page')
+        for p in (0, 1):
+            got = run(probe, p)
+            mon.count('page_results_compared')
+            if got != ref[p]:
+                mon.violation('page-result-independent-of-history', {'configuration': 'PageParser with LINE_FILTER', 'history': ['page with one injected out-of-memory fault', pages[p][0]], 'page': pages[p][0],
+                              'lines_after_history': len(got) if not isinstance(got, str) else got, 'lines_alone': len(ref[p]) if not isinstance(ref[p], str) else ref[p]})
+                break
+    close(probe)
     mon.mark_nontrivial()
